@@ -10,3 +10,24 @@ check('C04', 'wiresim', 'exploration',
       'deterministic simulation: seeded delivery schedules + reader-loop invariants + history check', 'DESIGN.md 3.1')
 PENDING.update({p: 'claimed in DESIGN.md; its check is not built yet in this tree (under construction)'
                 for p in ('C02', 'C03', 'C11', 'C12', 'C13', 'C14', 'C19')})
+check('C03', 'wiresim', 'exploration',
+      'Seeded search over coalesced and faulted record streams and over faulted datagrams of every corpus class: at '
+      'every reader step the three entry points are called on the same buffer and compared (n is an int in '
+      '[0, len], n > 0 for framing units, in-place variant removes exactly buf[:n], exact-size variant succeeds iff '
+      'n == len and otherwise raises too-much-data, failed parse leaves the buffer untouched); accepted framing units '
+      'are re-parsed alone and with foreign suffixes and compared with an independent reference framer. Sampling.',
+      'Trusted: the reference framer (header layouts from the specs), canon() equality, the static corpus.',
+      'deterministic simulation: seeded transit faults + coalescing, reader-step invariants, reference framer',
+      'DESIGN.md 3.2')
+check('C02', 'wiresim', 'fault_enumeration',
+      'Complete enumeration of a finite fault set (every truncation and every single-byte overwrite with '
+      '00/01/7f/80/ff at every offset of every accepted corpus seed <= 256 bytes) plus seeded multi-fault '
+      'exploration (9 transit fault kinds biased to length fields, separators and text) over datagrams of every '
+      'corpus class and streams of composed records with the second-layer parsers; every exception escaping any '
+      'entry point must be one of the four documented parse errors; a leak is identified by its innermost repo frame.',
+      'Trusted: the static corpus as the set of valid messages faults are applied to; dependency exceptions count '
+      'as the library\'s. Known leak sites of the pinned tree are listed in known_findings.json.',
+      'deterministic simulation: enumerated single faults + seeded multi-fault schedules, exception-class invariant',
+      'DESIGN.md 3.3')
+for _p in ('C02', 'C03'):
+    PENDING.pop(_p, None)
